@@ -14,11 +14,12 @@ Local Open Scope N_scope.
    WRelabel downres: a split (body split or supervoxel split): a voxel of the box with label l becomes
      tbl(l, m) where m = 1 inside the split volume (the non-zero voxels of [mask]) and 0 outside; labels
      without an entry stay.  The table is read off Go's level 0 by the driver and is pinned by the
-     level-0 digest. *)
+     level-0 digest.  [legal] = false for a body split outside the contract (an empty split volume or the
+     whole body): it must be refused and change nothing (a supervoxel split accepts both). *)
 Inductive hwrite :=
 | WRaw (ox oy oz : Z) (sz : N * N * N) (ps : list paint)
 | WBlocks (scale : N) (downres legal : bool) (ox oy oz : Z) (sz : N * N * N) (ps : list paint)
-| WRelabel (downres : bool) (ox oy oz : Z) (sz : N * N * N) (mask : list paint) (tbl : list (N * N * N)).
+| WRelabel (downres legal : bool) (ox oy oz : Z) (sz : N * N * N) (mask : list paint) (tbl : list (N * N * N)).
 
 Inductive c14case :=
 | CDown (gx gy gz : N) (bps : list paint) (octs : list (option (list paint)))
@@ -30,7 +31,7 @@ Inductive c14case :=
         (go_status : list N) (go_levels : list (res N))
   (* a history with the other ways of changing label data (see [hwrite]); bs = the instance's BlockSize *)
 | CHist (maxlevel : N) (bs : N * N * N) (writes : list hwrite) (wx wy wz : Z) (wn : N * N * N)
-        (go_status : list N) (go_levels : list (res N)).
+        (go_status : list N) (go_levels : list (list (res N))).   (* the levels read back after EVERY step *)
 
 Definition res_eqb {A} (eqb : A -> A -> bool) (a b : res A) : bool :=
   match a, b with
@@ -170,7 +171,8 @@ Definition hstep (bs : N * N * N) (st : list (list N)) (wx wy wz : Z) (n : N * N
       let a' := map_level a wx wy wz n (fun x y z cur =>
                   if in_zbox b x y z then paints_at ps (Z.to_N (x - ox)) (Z.to_N (y - oy)) (Z.to_N (z - oz)) 0 else cur) in
       a' :: (if dr then refresh bs a' wx wy wz n b rest else rest))
-  | WRelabel dr ox oy oz sz mask tbl =>
+  | WRelabel dr legal ox oy oz sz mask tbl =>
+    if negb legal then st else
     at_level 0 st wx wy wz n (fun a wx wy wz n rest =>
       let b := box_of ox oy oz sz in
       let a' := map_level a wx wy wz n (fun x y z cur =>
@@ -185,12 +187,19 @@ Fixpoint zero_levels (n : N * N * N) (k : nat) : list (list N) :=
   let '(nx, ny, nz) := n in
   repeat 0 (N.to_nat (nx * ny * nz)) :: match k with O => [] | S k' => zero_levels (half3 n) k' end.
 
-Definition hist_levels (maxlevel : N) (bs : N * N * N) (ws : list hwrite) (wx wy wz : Z) (n : N * N * N) : list (res N) :=
-  map (fun a => Ok (digest a))
-      (fold_left (fun st w => hstep bs st wx wy wz n w) ws (zero_levels n (N.to_nat maxlevel))).
+Fixpoint hist_run (bs : N * N * N) (st : list (list N)) (ws : list hwrite) (wx wy wz : Z) (n : N * N * N) : list (list (res N)) :=
+  match ws with
+  | [] => []
+  | w :: r => let st' := hstep bs st wx wy wz n w in
+              map (fun a => Ok (digest a)) st' :: hist_run bs st' r wx wy wz n
+  end.
+
+(* the digests of all levels after each step *)
+Definition hist_levels (maxlevel : N) (bs : N * N * N) (ws : list hwrite) (wx wy wz : Z) (n : N * N * N) : list (list (res N)) :=
+  hist_run bs (zero_levels n (N.to_nat maxlevel)) ws wx wy wz n.
 
 Definition hist_status (ws : list hwrite) : list N :=
-  map (fun w => match w with WBlocks _ _ false _ _ _ _ _ => 1 | _ => 0 end) ws.
+  map (fun w => match w with WBlocks _ _ false _ _ _ _ _ => 1 | WRelabel _ false _ _ _ _ _ _ => 1 | _ => 0 end) ws.
 
 (* ---- checks ---- *)
 
@@ -273,8 +282,8 @@ Definition spec_class (c : c14case) : nat :=
   | CHist maxlevel bs writes wx wy wz wn go_status go_levels =>
     if existsb (fun s => s =? 2) go_status then 1%nat
     else if negb (list_eqb N.eqb go_status (hist_status writes)) then 5%nat
-    else if existsb (fun r => match r with Panic => true | _ => false end) go_levels then 1%nat
-    else if list_eqb (res_eqb N.eqb) (hist_levels maxlevel bs writes wx wy wz wn) go_levels
+    else if existsb (fun r => match r with Panic => true | _ => false end) (concat go_levels) then 1%nat
+    else if list_eqb (list_eqb (res_eqb N.eqb)) (hist_levels maxlevel bs writes wx wy wz wn) go_levels
     then 0%nat else 4%nat
   end.
 
